@@ -457,6 +457,14 @@ def cases(tier, s):
             if am:
                 yield dict(base, struct=st, attrs=am)
     paths = PATHS4 if s['asn4'] else PATHS
+    if tier != 'quick':
+        # thorough: every pair of optional attributes on every structure (quick: on the core structures only)
+        for st in structs:
+            if st in core_structs:
+                continue
+            for am in attr_maps(2):
+                if len(am) == 2:
+                    yield dict(base, struct=st, attrs=am)
     for st in core_structs:
         for am in attr_maps(kcore):
             if len(am) >= 2:
